@@ -1381,6 +1381,7 @@ func runC04(c *core.Ctx) core.Meta {
 	checkVOP2ImplicitVCC(c, t)
 	checkDSOffsetForms(c, t)
 	checkPrinterReadsWholeOperand(c)
+	checkDisassembleAdvances(c)
 	checkFLATOperands(c, t)
 	checkSMEMOperands(c, t)
 	checkSOP2Operands(c, t)
